@@ -142,7 +142,8 @@ def c13_c16(which):
     grid = [(5, 5, 0.5, 10, 10, 2), (2, 3, 0.3, 3, 2, 1), (1, 1, 1.0, 2, 2, 2), (4, 1, 0.0, 3, 3, 1), (8, 8, 0.5, 3, 3, 1), (0.5, 0.5, 0.5, 1, 1, 1),
             (1, 1, 0.5, 2, 10, 2), (0.5, 2, 1.0, 1, 10, 1), (2, 5, 0.5, 10, 10, 2), (8, 5, 0.5, 10, 10, 2)] + ([(20, 20, 0.5, 2, 2, 1), (2, 2, 0.5, 4, 4, 2)] if TH else [])
     for la, lb, sub, qa, qb, m in grid:
-        kw = dict(max_useful_life=m, demand_poisson_mean_a=float(la), demand_poisson_mean_b=float(lb), substitution_probability=sub, max_order_quantity_a=qa, max_order_quantity_b=qb); p = HX(**kw)
+        # paired parameters get DISTINCT values (prices): a slip that exchanges the two products is invisible when they are equal
+        kw = dict(max_useful_life=m, demand_poisson_mean_a=float(la), demand_poisson_mean_b=float(lb), substitution_probability=sub, max_order_quantity_a=qa, max_order_quantity_b=qb, sales_price_a=1.5, sales_price_b=4.0); p = HX(**kw)
         ss, ee = np.asarray(p.state_space), np.asarray(p.random_event_space); f = jax.jit(jax.vmap(p.random_event_probability, in_axes=(None, None, 0)))
         md = m * (max(qa, qb) + 2); tail = max(float(st.poisson.sf(md - 1, la + sub * lb)), float(st.poisson.sf(md - 1, lb)))     # demand for A includes substituted demand for B
         inp = dict(problem="Hendrix", params=kw, max_demand=md, poisson_tail_beyond_truncation=tail); R.case(("hx", la, lb, sub, qa, qb, m), inp)
@@ -155,8 +156,9 @@ def c13_c16(which):
         if which == "c13" and (not (worst_sum <= tol) or not (mn >= 0)): R.fail("c13.hendrix_sum_to_one", "event probabilities are not finite, non-negative and summing to one within 1e-4", inp, dict(max_sum_deviation=float(worst_sum), min=float(mn)), "|sum - 1| <= 1e-4")
         if which == "c16":
             if not (worst <= max(1e-6, 3 * tail)): R.fail("c16.hendrix_joint_distribution", "differs from the brute-force joint distribution by more than the truncated tail mass", inp, worst, max(1e-6, 3 * tail))
-            iv = float(p.initial_value(ss[-1])); pr = np.asarray(f(ss[-1], p.action_space[0], p.random_event_space)); ex = (pr * (ee @ np.array([p.sales_price_a, p.sales_price_b]))).sum()
-            if not (abs(iv - ex) <= 1e-6): R.fail("c16.hendrix_initial_value", "initial value != expected one-step sales revenue", inp, iv, float(ex))
+            for s_ in sorted({len(ss) - 1, len(ss) // 2, len(ss) // 3, 1 % len(ss)}):
+                iv = float(p.initial_value(ss[s_])); pr = np.asarray(f(ss[s_], p.action_space[0], p.random_event_space)); ex = (pr * (ee @ np.array([p.sales_price_a, p.sales_price_b]))).sum()
+                if not (abs(iv - ex) <= 1e-6): R.fail("c16.hendrix_initial_value", "initial value != expected one-step sales revenue", dict(inp, state=ss[s_].tolist()), iv, float(ex)); break
     if which == "c16":
         for nm, p in (("forest", Forest(S=3)), ("de_moor", DM(max_demand=3, max_useful_life=1, max_order_quantity=2)), ("mirjalili", MJ(max_demand=2, max_useful_life=1, max_order_quantity=1, useful_life_at_arrival_distribution_c_0=(), useful_life_at_arrival_distribution_c_1=()))):
             R.case(("iv", nm), None)
